@@ -235,6 +235,14 @@ func (r *c06Rig) run(shape C06Shape, c *dfs.Chooser) (obs c06Obs, viols []string
 	case "garbage":
 		rec = []byte{0x7f, 0x03, 0xff, 0x00, 0x12, 0x34}
 	}
+	if shape.Rec == "refusing-first" {
+		// Position 0 of a batch is refused by the rules (its stored watermark is far ahead); the later positions are
+		// approved, so a fault on the batch-wide write must still strip their signatures.
+		k0 := append(append([]byte{}, accts[0].PubBytes()...), 0x02)
+		if err := r.rig.Rules.VerifRawPut(r.rig.Ctx, k0, []byte{1, 5, 0, 0, 0, 0, 0, 0, 0, 9, 0, 0, 0, 0, 0, 0, 0}); err != nil {
+			return obs, nil, err
+		}
+	}
 	if rec != nil {
 		if err := r.rig.Rules.VerifRawPut(r.rig.Ctx, recKey, rec); err != nil {
 			return obs, nil, err
@@ -438,6 +446,9 @@ func c06Shapes(tier string) []C06Shape {
 			shapes = append(shapes, C06Shape{Kind: kind, ByKey: byKey, Lock: "unlocked", Rec: "none"})
 			shapes = append(shapes, C06Shape{Kind: kind, ByKey: byKey, Lock: "locked-known", Rec: "valid"})
 			shapes = append(shapes, C06Shape{Kind: kind, ByKey: byKey, Lock: "locked-unknown", Rec: "none"})
+			if kind == "atts" {
+				shapes = append(shapes, C06Shape{Kind: kind, ByKey: byKey, Lock: "unlocked", Rec: "refusing-first"})
+			}
 			if kind != "sign" && kind != "multisign" {
 				shapes = append(shapes, C06Shape{Kind: kind, ByKey: byKey, Lock: "unlocked", Rec: "badlen"})
 				shapes = append(shapes, C06Shape{Kind: kind, ByKey: byKey, Lock: "unlocked", Rec: "garbage"})
